@@ -201,6 +201,18 @@ def run(tier, seed, replay):
                 files.append(["n%d_%d" % (i, j), f.replace("%s", n)])
         for k in range(0, len(files), 60):
             groups.append(("unicode names", files[k:k + 60], []))
+        # ---- keys that JavaScript treats specially
+        groups.append(("special keys", [["k%d" % i, t] for i, t in enumerate([
+            "{{ {__proto__: a} }}", "{{ {__proto__: a, ...c, __proto__: b} }}", "{{ {constructor: a, constructor: b} }}",
+            "{{ {a: 1, a: 2} }}", "{{ {__proto__} }}", "{{ a.__proto__.b }}", "<v model:value=\"{{ a.__proto__ }}\"/>",
+            ])], []))
+        # (each in a group of its own: a known finding must not hide its neighbours)
+        groups.append(("duplicate __proto__ key", [["k", "{{ {__proto__: a, __proto__: b} }}"]], []))
+        groups.append(("duplicate __proto__ key", [["k", "<template is=\"t\" data=\"{{ __proto__: a, __proto__: b }}\"/>"]], []))
+        # ---- an extra runtime script (documented: valid statements ended by a semicolon) joins every artefact that carries the runtime
+        for extra in ("var foo=1;", "function bar(){};", "/* c */;"):
+            groups.append(("extra runtime script", [["a", "<v>{{a}}</v>"]], [], [["extra_runtime", extra]]))
+            groups.append(("extra runtime script", [["a", "<wxs module=\"m\">exports.k=1</wxs>{{m.k}}"]], [["s", "exports.f=1"]], [["extra_runtime", extra]]))
         # ---- literal spellings
         lres = vlib.tlc("MCLiterals", cfg="MCLiterals", workers=4, timeout=600, sample=(3, seed) if tier == "quick" else None)
         vlib.tlc_expect_ok(lres, "MCLiterals")
@@ -233,9 +245,14 @@ def run(tier, seed, replay):
             groups.append(("deep %d" % n, [["a", deep(n)]], []))
     # compile everything, normal and dev
     vcases = []
+    EXTRA = {}      # group index -> operations run before the files are added
+    for i, g in enumerate(groups):
+        if len(g) == 4:
+            EXTRA[i] = g[3]
+            groups[i] = g[:3]
     for i, (label, files, scripts) in enumerate(groups):
         for dev in (False, True):
-            vcases.append({"id": i * 2 + int(dev), "files": files, "scripts": scripts, "dev": dev, "want": ["art"]})
+            vcases.append({"id": i * 2 + int(dev), "files": files, "scripts": scripts, "dev": dev, "want": ["art"], "ops": EXTRA.get(i, [])})
     vres = vlib.run_vh("tmpl", vcases, timeout=1800)
     jobs = []
     for vc, r in zip(vcases, vres):
